@@ -11,7 +11,7 @@ FUNCTIONS = [
     "batchie.models.main.generate_full_combinatoric_space / correlation_matrix / predict_viability_avg",
 ]
 BOUNDS = {
-    "quick": "metrics: 3 experiments x 4 posterior samples, chain labels in {0,1,2} (all labellings); single-agent effects: 3 rows, arity 2 and 3, ids sample in {0,1}, treatment in {-1,0,1} (all patterns); synergy: 3 rows arity 2; similarity matrix: 2-3 samples, 3 mapping rows",
+    "quick": "metrics: 3 experiments x 4 posterior samples, chain labels in {0,1,2} (all labellings); single-agent effects: 3 rows, arity 2 and 3, ids sample in {0,1}, treatment in {-1,0,1} (all patterns); synergy: 3 rows arity 2; similarity matrix: 2-3 samples, 3 mapping rows; an evaluation file written twice under one name",
     "thorough": "metrics: 4 x 5, chain labels in {0,1,2}; effects/synergy: 4 rows; similarity: 3 samples, 4 mapping rows",
 }
 ASSUMPTIONS = [
